@@ -40,6 +40,7 @@ type Target struct {
 	Siblings []int // other methods of the same receiver type
 	Mates    []int // generic instantiations sharing this target's shape body (behaviour unspecified while one is mocked)
 	Generic  bool
+	NoRan    bool   // leaf function: no "original ran" counter, the result alone tells
 	Known    string // id of the open known finding that makes this target unusable in ordinary plans
 }
 
@@ -144,6 +145,12 @@ func initFuncs() {
 		t.Lookup = func(b *mocker.Builder, how int) mocker.ExportedMocker { return b.Func(f.Fn) }
 		t.Ref = func(args []interface{}) []interface{} { return fn.Compute(f.Idx, f.Typ, args) }
 		t.RanCount = func() int64 { return fn.RanCount(f.Idx) }
+		if f.Leaf > 0 {
+			t.NoRan = true
+			t.Kind = "func"
+			t.Ref = func(args []interface{}) []interface{} { return fn.LeafRef(f.Leaf-1, args) }
+			t.RanCount = func() int64 { return 0 }
+		}
 		t.Simple = f.Typ.NumIn() > 0 && !f.Typ.IsVariadic()
 		for i := 0; i < f.Typ.NumIn(); i++ {
 			if !simpleKind(f.Typ.In(i)) {
